@@ -29,10 +29,25 @@ def check(prop: str, tier: str) -> int:
     except ModuleNotFoundError:
         print("ANALYSIS-ERROR property=%s no rule module" % prop)
         return 2
-    code = run_property(prop, tier, mod.run, Analysis, mod.META)
-    if code == 0 and tier == "thorough" and hasattr(mod, "thorough_extra"):
-        code = mod.thorough_extra()
-    return code
+    def thorough(A, rep):
+        """Thorough tier: (a) the property's own universal extras, if any; (b) self-validation of the
+        checker on seeded variants of the current tree (firing variants must be reported by the named
+        rule, silent twins must pass) — a failure means the checker is broken (exit 2), never a verdict."""
+        from .model import AnalysisError
+        from .variants import V, summary_for
+        cov = {}
+        if hasattr(mod, "thorough_extra"):
+            cov.update(mod.thorough_extra(A, rep) or {})
+        if os.environ.get("VERIF_NO_VARIANTS"):
+            return cov
+        code, counts, bad = summary_for([prop])
+        cov["self_validation"] = {"variants": sum(counts.values()), "results": counts,
+                                  "what": "seeded variants of the current tree re-analysed on scratch copies; firing variants must be reported by the named rule, behaviour-preserving twins must stay silent",
+                                  "ids": [x[0] for x in V if x[1] == prop]}
+        if bad:
+            raise AnalysisError("self-validation failed: " + "; ".join(bad))
+        return cov
+    return run_property(prop, tier, mod.run, Analysis, mod.META, thorough_fn=thorough)
 
 
 def main(argv=None) -> int:
